@@ -254,6 +254,11 @@ def apply_real(pp, r, op):
         if len(op) > 3 and op[3] == "kw":
             return r, val(r.pop(op[1], default=bv(op[2])))
         return r, val(r.pop(op[1], bv(op[2])))
+    if k == "popbadkw":
+        return r, val(r.pop(0, **{"defualt": 1}))      # unexpected keyword -> TypeError
+    if k == "setslicescalar":
+        r[_sl(*op[1:4])] = 5                            # not iterable -> TypeError (ValueError for step 0)
+        return r, Sym("None")
     if k == "insert":
         r.insert(op[1], bv(op[2]))
         return r, Sym("None")
@@ -298,7 +303,7 @@ def op_sexp(pp, op):
     vs = lambda d: val_sexp(pp, d)
     if k in ("getint", "delint"):
         return [Sym(k), op[1]]
-    if k in ("getslice", "delslice"):
+    if k in ("getslice", "delslice", "setslicescalar"):
         return [Sym(k), _o(op[1]), _o(op[2]), _o(op[3])]
     if k in ("getname", "getattr", "delname", "contains"):
         return [Sym(k), op[1]]
@@ -457,6 +462,11 @@ class Spec:
                 del self.names[op[1]]
                 return val(v)
             return val(vs(op[2]))
+        if k == "popbadkw":
+            raise TypeError("pop() got an unexpected keyword argument")
+        if k == "setslicescalar":
+            t[slice(*op[1:4])] = 5
+            return none
         if k == "insert":
             t.insert(op[1], vs(op[2]))
             return none
